@@ -135,6 +135,10 @@ fn chk_codec(c: Compression, kind: u64, size: usize, seed: u64) -> Result<(), St
     if spec::codec_decompress(code, &z)? != data {
         return Err("the upstream library decodes compress_all's output to other bytes".into());
     }
+    // the size law the Coq development assumes of a codec (Oracles.codec_size)
+    if z.len() > 2 * data.len() + 1024 {
+        return Err(format!("compress_all turned {} bytes into {} (> 2n + 1024: the codec size law of the model does not hold)", data.len(), z.len()));
+    }
     // the library decodes what the upstream library produced
     let up = spec::codec_compress(code, &data);
     if pmtiles2::util::decompress_all(c, &up).map_err(|e| format!("decompress_all(upstream stream): {e}"))? != data {
@@ -163,6 +167,10 @@ fn chk_codec(c: Compression, kind: u64, size: usize, seed: u64) -> Result<(), St
         }
         if spec::codec_decompress(code, &out)? != data {
             return Err(format!("streamed compression (round {round}) is not decoded to the input by the upstream library"));
+        }
+        if round != 1 && out.len() > 2 * data.len() + 1024 {
+            // (round 1 flushes at random points, which legitimately adds sync markers)
+            return Err(format!("streamed compression turned {} bytes into {} (> 2n + 1024)", data.len(), out.len()));
         }
         // streaming reader with small reads
         let mut cur = std::io::Cursor::new(&out);
